@@ -298,3 +298,17 @@ ASSUMPTIONS = [
     "an exception escaping a state function aborts the iteration (the request flag is then not reset) - outside C01-C04/C13",
     "composition 'on_enable(); on_iteration() starts the first state at tm 0' is the chain engage-post (C04.E2) + C03.A8 + C02.B3, read off the three contracts",
 ]
+
+# ---------------------------------------------------------------------------------------------------
+# known-finding probes: the same real functions verified WITHOUT the usage assumption; the named obligation is
+# expected to fail there (that failure *is* the known finding; see known_findings.json and native/kf/).
+import copy as _copy
+_p = _copy.deepcopy(CONTRACTS[f"{SM}.next_state"])
+_p.update({"source": f"{SM}.next_state", "requires": {}, "receivers": [SM], "probe": True,
+           "probe_only": ["invariant K1 a disengaged machine only holds a fresh, legitimately pending state at exit"]})
+CONTRACTS[f"{SM}.next_state#F3-without-usage-assumption"] = _p
+_p = _copy.deepcopy(CONTRACTS[f"{SM}.execute"])
+_p.update({"source": f"{SM}.execute", "receivers": [ASM], "probe": True,
+           "drop_callee_ensures": {f"{SD}.run": ["CB-A1"]},
+           "probe_only": ["ensures C13.X5"]})
+CONTRACTS[f"{SM}.execute#F4-without-CB-A1"] = _p
